@@ -24,7 +24,7 @@ class T:
 
 class FunGen:
     def __init__(self, rng, mode="seq", pressure=False, budget=(6, 16), ndefs=(2, 5), max_main_params=3,
-                 wide=False, polymorphic=True, labels=True, big_lits=True, twin=False):
+                 wide=False, polymorphic=True, labels=True, big_lits=True, twin=False, mark=False):
         self.r = rng
         self.mode = mode
         self.names = NAMES_PRESSURE if pressure else NAMES_PLAIN
@@ -43,6 +43,8 @@ class FunGen:
         self.uid = 0
         self.twin = twin
         self.tw = 0
+        self.sites = {}      # C15: mutation sites, id -> metadata (only filled when mark=True)
+        self.mark = mark
 
     # ------------------------------------------------------------------ types
     def mk_types(self):
@@ -176,6 +178,16 @@ class FunGen:
     def covars_of(self, ctx, ty):
         return [b for b in self.visible(ctx) if b[1] == "cns" and b[2] == ty]
 
+    # ------------------------------------------------------------------ mutation sites (C15)
+    def site(self, kind, text, **meta):
+        if not self.mark:
+            return text
+        i = len(self.sites) + 1
+        meta["kind"] = kind
+        meta["text"] = text
+        self.sites[i] = meta
+        return "\u27e6%d\u27e7%s\u27e6/%d\u27e7" % (i, text, i)
+
     # ------------------------------------------------------------------ literals
     def lit(self):
         r = self.r
@@ -217,7 +229,7 @@ class FunGen:
     def leaf(self, ty, ctx):
         vs = self.vars_of(ctx, ty)
         if vs and self.r.random() < 0.7:
-            return T(self.r.choice(vs)[3], 1)
+            return T(self.site("var", self.r.choice(vs)[3]), 1)
         if ty == "i64":
             return self.lit()
         if self.is_data(ty):
@@ -232,7 +244,7 @@ class FunGen:
 
     def g_var(self, ty, ctx, b, eff):
         vs = self.vars_of(ctx, ty)
-        return T(self.r.choice(vs)[3], 1) if vs else None
+        return T(self.site("var", self.r.choice(vs)[3]), 1) if vs else None
 
     def g_op(self, ty, ctx, b, eff):
         op = self.r.choice(["+", "-", "*", "+", "-", "*", "/", "%"])
@@ -273,7 +285,9 @@ class FunGen:
         pname, name = self.fresh_name(ctx)
         bound = self.gen(bty, ctx, b // 2, eff and not self.is_codata(bty))
         body = self.gen(ty, ctx + [(pname, "prd", bty, name)], b // 2, eff)
-        return T("let %s: %s = %s; %s" % (name, bty, bound.at(3), body.at(4)), 3, bound.pure and body.pure)
+        simple = bound.lvl <= 2 and not bound.s.startswith("\u27e6") and (bound.s.lstrip("-").isdigit() or bound.s[:1].isupper() or bound.s.startswith("new "))
+        return T("let %s: %s = %s; %s" % (name, self.site("letty", bty, simple=simple, other=("D0" if bty == "i64" else "i64")), bound.at(3), body.at(4)), 3,
+                 bound.pure and body.pure)
 
     def args_for(self, sig, ctx, b, eff):
         """sig: list of (name, chi, ty); returns list of texts or None"""
@@ -306,14 +320,18 @@ class FunGen:
             args, pure = self.args_for(sig, ctx, b, eff)
             if args is None:
                 return None
-        return T("%s(%s)" % (d["name"], ", ".join(args)), 1, pure and d["pure"])
+        sig_ = d["params"]
+        return T("%s(%s)" % (self.site("callee", d["name"]), self.site("args", ", ".join(args), args=list(args), types=[p[2] for p in sig_],
+                                                                   chis=[p[1] for p in sig_], prdvars=[b[3] for b in self.visible(ctx) if b[1] == "prd"],
+                                                                   covars=[b[3] for b in self.visible(ctx) if b[1] == "cns"])), 1, pure and d["pure"])
 
     def g_ctor(self, ty, ctx, b, eff):
         c, fs = self.r.choice(self.ctors_of(ty))
         if not fs:
             return T(c, 2)
         args = [self.gen(t, ctx, b // (len(fs) + 1), False) for _, t in fs]
-        return T("%s(%s)" % (c, ", ".join(a.at(4) for a in args)), 2, all(a.pure for a in args))
+        return T("%s(%s)" % (c, self.site("args", ", ".join(a.at(4) for a in args), args=[a.at(4) for a in args], types=[t for _, t in fs],
+                                          chis=["prd"] * len(fs), prdvars=[], covars=[])), 2, all(a.pure for a in args))
 
     def g_case(self, ty, ctx, b, eff):
         dts = [t for t in self.insts if self.is_data(t)]
@@ -335,8 +353,9 @@ class FunGen:
                 cctx.append((pn, "prd", t, n))
             body = self.gen(ty, cctx, b // (len(ctors) + 1), eff)
             pure = pure and body.pure
-            clauses.append("%s%s => %s" % (c, "(%s)" % ", ".join(names) if names else "", body.at(4)))
-        return T("%s.case%s { %s }" % (scr.at(2), self.targs(sty), ", ".join(clauses)), 2, pure)
+            clauses.append("%s%s => %s" % (c, self.site("binders", "(%s)" % ", ".join(names) if names else "", names=list(names)), body.at(4)))
+        return T("%s.case%s { %s }" % (scr.at(2), self.site("targs", self.targs(sty)) if self.targs(sty) else "",
+                                       self.site("clauses", ", ".join(clauses), clauses=list(clauses), form="case")), 2, pure)
 
     def g_new(self, ty, ctx, b, eff):
         clauses, pure = [], True
@@ -354,8 +373,8 @@ class FunGen:
             # clause bodies are pure in mode seq (a destructor call is then a pure expression)
             body = self.gen(rt, cctx, max(0, b // 2), False)
             pure = pure and body.pure
-            clauses.append("%s%s => %s" % (dn, "(%s)" % ", ".join(names) if names else "", body.at(4)))
-        return T("new { %s }" % ", ".join(clauses), 2, pure)
+            clauses.append("%s%s => %s" % (dn, self.site("binders", "(%s)" % ", ".join(names) if names else "", names=list(names)), body.at(4)))
+        return T("new { %s }" % self.site("clauses", ", ".join(clauses), clauses=list(clauses), form="new"), 2, pure)
 
     def g_dtor(self, ty, ctx, b, eff):
         cts = [t for t in self.insts if self.is_codata(t)]
@@ -367,7 +386,9 @@ class FunGen:
             dn, as_, rt = self.r.choice(ds)
             obj = self.gen(cty, ctx, b // 2, False)
             args = [self.gen(t, ctx, b // (len(as_) + 2), False) for _, t in as_]
-            return T("%s.%s%s%s" % (obj.at(2), dn, self.targs(cty), "(%s)" % ", ".join(a.at(4) for a in args) if args else ""), 2,
+            return T("%s.%s%s%s" % (obj.at(2), dn, self.site("targs", self.targs(cty)) if self.targs(cty) else "",
+                                    "(%s)" % self.site("args", ", ".join(a.at(4) for a in args), args=[a.at(4) for a in args], types=[t for _, t in as_],
+                                                       chis=["prd"] * len(as_), prdvars=[], covars=[]) if args else ""), 2,
                      obj.pure and all(a.pure for a in args))
         return None
 
@@ -391,7 +412,7 @@ class FunGen:
             return None
         c = self.r.choice(cs)
         a = self.gen(c[2], ctx, b // 2, False)
-        return T("goto %s (%s)" % (c[3], a.at(4)), 3, False)
+        return T("goto %s (%s)" % (self.site("goto", c[3], prdvars=[b[3] for b in self.visible(ctx) if b[1] == "prd"]), a.at(4)), 3, False)
 
     # ------------------------------------------------------------------ program
     def program(self):
@@ -466,3 +487,130 @@ def generate(seed, n, **kw):
             args.append([rng.choice([0, 1, -1, 7, 9223372036854775807, -9223372036854775807, 4294967296, -2147483648]) for _ in range(k)])
         out.append(("f%d_%d" % (seed, i), src, args))
     return out
+
+
+# ---------------------------------------------------------------------------------------------- C15: ill-typed edits
+import re as _re
+_MARK = _re.compile("⟦/?\\d+⟧")
+
+
+def strip_marks(s):
+    return _MARK.sub("", s)
+
+
+def _replace_site(src, i, new):
+    a, b = "⟦%d⟧" % i, "⟦/%d⟧" % i
+    p, q = src.index(a), src.index(b)
+    return src[:p] + new + src[q + len(b):]
+
+
+def ill_typed_edits(src, sites, decl_info, rng, per_class=3):
+    """-> list of (class name, mutated source text); every edit is certainly ill-typed"""
+    out = []
+    by_kind = {}
+    for i, m in sites.items():
+        if ("⟦%d⟧" % i) in src:
+            by_kind.setdefault(m["kind"], []).append(i)
+
+    def pick(kind, pred=lambda m: True):
+        c = [i for i in by_kind.get(kind, []) if pred(sites[i])]
+        rng.shuffle(c)
+        return c[:per_class]
+    nullary = decl_info["nullary_ctor"]
+    for i in pick("args", lambda m: len(m["args"]) >= 1):
+        m = sites[i]
+        out.append(("arg-count-less", _replace_site(src, i, ", ".join(m["args"][:-1]))))
+    for i in pick("args"):
+        m = sites[i]
+        out.append(("arg-count-more", _replace_site(src, i, ", ".join(m["args"] + ["0"]))))
+    for i in pick("args", lambda m: any(c == "prd" for c in m["chis"])):
+        m = sites[i]
+        k = rng.choice([j for j, c in enumerate(m["chis"]) if c == "prd"])
+        wrong = nullary if m["types"][k] == "i64" else "7"
+        a = list(m["args"])
+        a[k] = wrong
+        out.append(("arg-type", _replace_site(src, i, ", ".join(a))))
+    for i in pick("args", lambda m: any(c == "cns" for c in m["chis"])):
+        m = sites[i]
+        k = rng.choice([j for j, c in enumerate(m["chis"]) if c == "cns"])
+        a = list(m["args"])
+        a[k] = "(0)"
+        out.append(("term-as-covariable", _replace_site(src, i, ", ".join(a))))
+    for i in pick("args", lambda m: any(c == "prd" for c in m["chis"]) and m["covars"]):
+        m = sites[i]
+        k = rng.choice([j for j, c in enumerate(m["chis"]) if c == "prd"])
+        a = list(m["args"])
+        a[k] = m["covars"][0]
+        out.append(("covariable-as-term", _replace_site(src, i, ", ".join(a))))
+    for i in pick("var"):
+        out.append(("unbound-variable", _replace_site(src, i, "zz_unbound_q")))
+    for i in pick("goto"):
+        out.append(("unbound-covariable", _replace_site(src, i, "zz_unbound_k")))
+    for i in pick("goto", lambda m: m["prdvars"]):
+        out.append(("variable-as-goto-target", _replace_site(src, i, sites[i]["prdvars"][0])))
+    for i in pick("callee"):
+        out.append(("undefined-definition", _replace_site(src, i, "zz_undefined_f")))
+    for i in pick("clauses", lambda m: len(m["clauses"]) >= 1):
+        m = sites[i]
+        k = rng.randrange(len(m["clauses"]))
+        out.append(("missing-clause", _replace_site(src, i, ", ".join(m["clauses"][:k] + m["clauses"][k + 1:]))))
+    for i in pick("clauses", lambda m: len(m["clauses"]) >= 1):
+        m = sites[i]
+        k = rng.randrange(len(m["clauses"]))
+        out.append(("duplicated-clause", _replace_site(src, i, ", ".join(m["clauses"] + [m["clauses"][k]]))))
+    for i in pick("clauses"):
+        m = sites[i]
+        extra = "Zz_Unknown => 0" if m["form"] == "case" else "zz_unknown => 0"
+        out.append(("extra-clause", _replace_site(src, i, ", ".join(m["clauses"] + [extra]))))
+    for i in pick("binders", lambda m: len(m["names"]) >= 1):
+        m = sites[i]
+        ns = m["names"][:-1]
+        out.append(("binder-count-less", _replace_site(src, i, "(%s)" % ", ".join(ns) if ns else "")))
+    for i in pick("binders"):
+        m = sites[i]
+        out.append(("binder-count-more", _replace_site(src, i, "(%s)" % ", ".join(m["names"] + ["zz_b"]))))
+    for i in pick("binders", lambda m: len(m["names"]) >= 2):
+        m = sites[i]
+        out.append(("binder-bound-twice", _replace_site(src, i, "(%s)" % ", ".join([m["names"][0]] * 2 + m["names"][2:]))))
+    for i in pick("targs"):
+        out.append(("type-argument-count-less", _replace_site(src, i, "")))
+    for i in pick("targs"):
+        m = sites[i]
+        out.append(("type-argument-count-more", _replace_site(src, i, m["text"][:-1] + ", i64]")))
+    for i in pick("letty", lambda m: m["simple"]):
+        m = sites[i]
+        if m["other"] == "D0" and not decl_info["has_D0"]:
+            continue
+        out.append(("annotation-mismatch", _replace_site(src, i, m["other"])))
+    # declaration-level edits
+    plain = src
+    defs = [l for l in strip_marks(plain).split("\n") if l.startswith("def ")]
+    datas = [l for l in strip_marks(plain).split("\n") if l.startswith("data ")]
+    if defs:
+        d = rng.choice(defs)
+        out.append(("duplicate-definition", plain + d + "\n"))
+    if datas:
+        d = rng.choice(datas)
+        out.append(("duplicate-type", plain + d + "\n"))
+        # duplicate constructor inside a declaration
+        m = _re.match(r"^(data \w+(\[[^\]]*\])? \{ )(\w+)(.*)$", d)
+        if m:
+            out.append(("duplicate-constructor", plain.replace(d, m.group(1) + m.group(3) + ", " + m.group(3) + m.group(4))))
+    return [(c, strip_marks(t)) for c, t in out]
+
+
+def generate_marked(seed, n, **kw):
+    """-> list of (name, clean source, [(class, ill-typed source)])"""
+    res = []
+    for i in range(n):
+        rng = random.Random((seed << 20) + i)
+        g = FunGen(rng, mark=True, **kw)
+        try:
+            src = g.program()
+        except RecursionError:
+            continue
+        nullary = next(c for d in g.data.values() for c, fs in d["ctors"] if not fs and not d["params"])
+        info = {"nullary_ctor": nullary, "has_D0": "D0" in g.data}
+        muts = ill_typed_edits(src, g.sites, info, random.Random((seed << 20) + i + 7))
+        res.append(("t%d_%d" % (seed, i), strip_marks(src), muts))
+    return res
